@@ -718,6 +718,14 @@ class Engine:
                 return
             raise Unsupported(f'attribute store .{tgt.attr}')
         if isinstance(tgt, ast.Subscript):
+            lk = ast.unparse(tgt.value) + '.__setitem__'
+            if lk in self.c.get('calls', {}) and not st.spec:
+                key = self.ev(tgt.slice, st)
+                fake = ast.Call(func=ast.Attribute(value=tgt.value, attr='__setitem__', ctx=ast.Load()), args=[tgt.slice], keywords=[])
+                ast.copy_location(fake, tgt)
+                ast.fix_missing_locations(fake)
+                self.menv.apply_contract(lk, fake, self, st, contract=self.c['calls'][lk], args=[key, val])
+                return
             base = self.ev(tgt.value, st)
             if isinstance(base, VRec) and f'{base.name}.__setitem__' in self.reg:
                 key = self.ev(tgt.slice, st)
